@@ -113,6 +113,32 @@ def discover(repo: Repo, clsname: str) -> Srv:
 
 
 # ----------------------------------------------------------------------
+def _snapshots(s: Srv, sc: Scope) -> dict:
+    """{local name: [assignment nodes]} for locals of the admission function whose every assignment is `len(<ledger>)`"""
+    cache = getattr(s, '_snap_cache', None)
+    if cache is not None:
+        return cache
+    defs: dict = {}
+    bad = set()
+    for n in ast.walk(s.enqueue.node):
+        if isinstance(n, ast.Assign):
+            for t in n.targets:
+                if isinstance(t, ast.Name):
+                    v = n.value
+                    if isinstance(v, ast.Call) and dotted(v.func) == 'len' and v.args and sc.canon(v.args[0]) == s.ledger:
+                        defs.setdefault(t.id, []).append(n)
+                    else:
+                        bad.add(t.id)
+        elif isinstance(n, (ast.AugAssign, ast.AnnAssign)) and isinstance(n.target, ast.Name):
+            bad.add(n.target.id)
+    out = {k: v for k, v in defs.items() if k not in bad}
+    try:
+        s._snap_cache = out
+    except Exception:  # noqa: BLE001
+        pass
+    return out
+
+
 def _guard_kind(test, sc: Scope, s: Srv):
     """'T' / 'F' = the edge label on which the server is *full*, if `test` is a correct capacity guard.
     'weak' if it compares ledger size and capacity with a wrong strictness; None otherwise."""
@@ -125,7 +151,11 @@ def _guard_kind(test, sc: Scope, s: Srv):
         return None
     l, r = t.left, t.comparators[0]
 
+    snap = _snapshots(s, sc)
+
     def is_len(e):
+        if isinstance(e, ast.Name) and e.id in snap:
+            return True  # a local that only ever holds len(<ledger>): where and when it was read is decided by C06-2
         return isinstance(e, ast.Call) and dotted(e.func) == 'len' and e.args and sc.canon(e.args[0]) == s.ledger
 
     def is_cap(e):
@@ -348,7 +378,26 @@ def check_atomic_admission(ck: Checker, rid: str, s: Srv):
             mid = between & back
             if mid & exits:
                 probs.append(f'the admission lock is released between the guard at L{n.lineno} and the insert')
-    ck.ob(rid, s.enqueue, stores[0].ast if stores else s.enqueue.node, not probs, '; '.join(probs) if probs else f'guard and insert both inside one `{s.cond}` region')
+    # a guard that tests a local copy of the ledger size: every read of that copy that can reach the guard is made under
+    # the lock (check-then-act otherwise: another caller fills the last slot between the read and the lock), and it is
+    # read again after every wait
+    snap = _snapshots(s, sc)
+    if snap:
+        from mpsa.flow import reaching_defs as _rd
+
+        waits = {w.id for w, _ in _wait_nodes(cfg, sc, s)}
+        for n in cfg.nodes:
+            if n.kind == 'test' and _guard_kind(n.ast, sc, s) in ('T', 'F'):
+                for v in [x.id for x in ast.walk(n.ast) if isinstance(x, ast.Name) and x.id in snap]:
+                    rd = _rd(cfg, v, start=cfg.entry).get(n.id, frozenset())
+                    for d in rd:
+                        if s.cond not in held.get(d, frozenset()):
+                            probs.append(f'the capacity guard at L{n.lineno} tests `{v}`, a copy of the ledger size read at L{cfg.nodes[d].lineno} outside `{s.cond}`: between that read and the lock another caller can take the last slot — both are admitted, the backlog exceeds the capacity')
+                    defs_ = {k.id for k in cfg.nodes if isinstance(k.ast, ast.Assign) and any(isinstance(t_, ast.Name) and t_.id == v for t_ in k.ast.targets)}
+                    for w in waits:
+                        if path_avoiding(cfg, cfg.normal_succ(w), {n.id}, avoid=defs_) is not None:
+                            probs.append(f'after the wait at L{cfg.nodes[w].lineno} the guard at L{n.lineno} tests the old copy `{v}` again: the re-test after a wake-up sees the size from before the wait')
+    ck.ob(rid, s.enqueue, stores[0].ast if stores else s.enqueue.node, not probs, '; '.join(sorted(set(probs))) if probs else f'guard and insert both inside one `{s.cond}` region')
 
 
 def check_reject_traceless(ck: Checker, rid: str, s: Srv):
@@ -855,6 +904,19 @@ def check_abandon_local(ck: Checker, rid: str, s: Srv):
     extra = meths - {'result', 'cancel', 'done', 'cancelled', 'exception'}
     ok = not touched and not extra
     ck.ob(rid, f, (f.node.lineno, '_wait_for_result effects'), ok, 'on expiry only the caller\'s own future is cancelled; ledger, queues and admission condition are not touched' if ok else f'abandonment is not local: touches {sorted(touched)} / calls {sorted(extra)} on the future')
+    # a deadline that has expired ends in TimeoutError on every path: the late outcome is discarded, whichever of
+    # {the caller's cancel, the gather thread's resolution} comes first -- a handler that returns the late result (or
+    # raises the late worker exception) when cancel() lost that race makes the outcome of a timed-out call depend on it
+    def _extra(node, a):
+        return {'TimeoutError', 'Exception'} if any(method_of(c)[1] in ('result', 'wait_for') or (dotted(c.func) or '').endswith('wait_for') for c in calls_in(a)) else set()
+
+    cfg = build_cfg(f, ck.repo, make_fallible(Scope(f), iters=set(), calls=set(), extra=_extra))
+    hs = [n for n in cfg.nodes if n.kind == 'except' and any('Timeout' in (dotted(t_) or '') for t_ in ([n.ast.type] if not isinstance(n.ast.type, ast.Tuple) else n.ast.type.elts) if t_ is not None)]
+    ck.need(hs, f'{f.key}: no handler for the expiry of the wait')
+    for h in hs:
+        p = path_avoiding(cfg, [e for e in cfg.succ[h.id] if not e.is_exc], {cfg.exit_return}, avoid=set(), edge_ok=lambda e: not e.is_exc)
+        raises_ok = any(isinstance(k.ast, ast.Raise) for k in cfg.nodes if k.id in reachable(cfg, [h.id], edge_ok=lambda e: not e.is_exc))
+        ck.ob(rid, f, h.ast, p is None and raises_ok, 'the expiry handler ends in a raise on every path: the late outcome is discarded' if p is None and raises_ok else f'the expiry handler can return normally (via L{[cfg.nodes[k].lineno for k in (p or [])][-2:]}): a call whose deadline has expired returns the late result (or raises the late worker error) instead of TimeoutError, depending on whether its cancel() or the gather thread was first')
 
 
 # ----------------------------------------------------------------------
